@@ -246,7 +246,8 @@ def finish(prop, tier, agg, merr, wall, *, level, rule, technique, assumptions, 
     for sigpat, (f, sigs) in sorted(known_hit.items()):
         print("KNOWN-FINDING: property=%s %s [%s; %d matching case(s)]" % (prop, f.get("what", ""), sigpat, len(sigs)))
     rdir = os.path.join(VERIF, "replays", prop)
-    for v in new[:25]:
+    maxv = int(os.environ.get("VERIF_MAXV", "25"))
+    for v in new[:maxv]:
         os.makedirs(rdir, exist_ok=True)
         name = hashlib.blake2b(v["sig"].encode(), digest_size=6).hexdigest() + ".json"
         path = os.path.join(rdir, name)
@@ -256,8 +257,8 @@ def finish(prop, tier, agg, merr, wall, *, level, rule, technique, assumptions, 
         print("VIOLATION property=%s replay=%s" % (prop, path))
         print("  signature: %s" % v["sig"])
         print("  what: %s" % v["what"][:600])
-    if len(new) > 25:
-        print("  (%d further distinct violation signatures not written)" % (len(new) - 25))
+    if len(new) > maxv:
+        print("  (%d further distinct violation signatures not written)" % (len(new) - maxv))
     for m in merr[:3]:
         print("MACHINERY-ERROR: %s" % m, file=sys.stderr)
     cov = {
